@@ -107,7 +107,26 @@ def line1(g):
     return Spec([[a]], [-a * t], 0.0, [], [], [], [-INF], [INF], [], [])
 
 
-FAMILIES = {"convex_qp": convex_qp, "nonlinear": nonlinear, "infeasible": infeasible, "unbounded": unbounded,
+def separable(g):
+    """objective in x0 only, one equality row in x1 only: grad f is orthogonal to J^T c at every point (the
+    ParetoDecrease policy divides by their inner product only when it is not ~0)"""
+    r = g.rng
+    n = 2
+    P = [[0.0, 0.0], [0.0, 0.0]]
+    q = [r.choice([1.0, -1.0, 2.0]), 0.0]
+    t = float(r.randint(-3, 3))
+    return Spec(P, q, 0.0, [[[0.0] * n for _ in range(n)]], [[0.0, 1.0]], [-t], [0.0, -INF], [4.0, INF], [0.0], [0.0])
+
+
+def ill_conditioned(g):
+    """a diagonal, strictly convex QP whose Newton matrices have a condition number beyond 1/eps: solvable to full
+    accuracy by LU all the same"""
+    r = g.rng
+    big = 10.0 ** r.choice([17, 18, 20])
+    return Spec([[big, 0.0], [0.0, 1.0]], [-1.0, -1.0], 0.0, [], [], [], [-INF, -INF], [INF, INF], [], [])
+
+
+FAMILIES = {"separable": separable, "ill_conditioned": ill_conditioned, "convex_qp": convex_qp, "nonlinear": nonlinear, "infeasible": infeasible, "unbounded": unbounded,
             "unbounded_cons": unbounded_cons, "line1": line1}
 
 
@@ -157,13 +176,26 @@ def make_params(cfg, sc, spec, x0, y0):
     elif sc and sc["kind"] in ("Nominal", "GradJac", "KKT"):
         kw.update(scaling_type=PM.ScalingType[sc["kind"]], scaling_primal=np.array(x0, dtype=float),
                   scaling_dual=np.array(y0, dtype=float))
-    return PM.Params(**kw), scal
+    params = PM.Params(**kw)
+    # what the caller asked for is what the object holds (a constructor that silently edits a tolerance changes what
+    # every status means)
+    altered = []
+    for k, v in kw.items():
+        got = getattr(params, k, None)
+        same = (got is v) or (isinstance(v, np.ndarray) and isinstance(got, np.ndarray) and np.array_equal(got, v)) \
+            or (not isinstance(v, np.ndarray) and not isinstance(got, np.ndarray) and got == v)
+        if not same:
+            altered.append("%s: asked %r, holds %r" % (k, v, got))
+    params._verif_altered = altered
+    return params, scal
 
 
 def params_snapshot(params):
     """value of every field of a Params object (arrays by content), to see whether a solve wrote into it"""
     snap = {}
     for k, v in sorted(vars(params).items()):
+        if k.startswith("_verif"):
+            continue
         if isinstance(v, np.ndarray):
             snap[k] = ("array", v.dtype.str, v.shape, v.tobytes())
         elif hasattr(v, "var_weights"):
@@ -308,6 +340,7 @@ def _run(case, solver_obj=None, keep=False):
                     lambda it, nx, acc: ann.append({"z": it.z.tolist(), "zn": nx.z.tolist(), "acc": bool(acc),
                                                     "rho": float(getattr(solver, "rho", 0.0))}))
             out["constructed"] = True
+            out["params_altered_at_construction"] = list(getattr(params, "_verif_altered", []))
             pbefore = params_snapshot(params)
             dbefore = params_snapshot(type(params)())
             try:
@@ -486,6 +519,11 @@ def user_scaling(case, rec):
 
 
 def oracle_C01(case, rec, opt_tol=1e-6, active_tol=1e-8):
+    alt = [a for a in rec.get("params_altered_at_construction") or [] if a.split(":")[0] in ("opt_tol", "active_tol", "local_infeas_tol")]
+    if alt and rec.get("status") == "Optimal":
+        return "tolerance: Optimal is judged against a tolerance the caller did not ask for (%s)" % "; ".join(alt)
+    if case["cfg"].get("precision") == "Single":
+        return None          # the numeric KKT evaluation below assumes binary64 accuracy of the returned point
     """Optimal => KKT of the user's problem at (x, y, d), tolerances scaled by the power-of-two factors, plus a rounding
     allowance (the property is about a float computation)."""
     if rec.get("kind") != "status" or rec["status"] != "Optimal":
